@@ -103,6 +103,7 @@ type faultConn struct {
 	closed    chan struct{}
 	closeOnce sync.Once
 	tripped   int32
+	closeErr  int32 // Close() closes the inner conn and then returns errInjected
 }
 
 func newFaultConn(c net.Conn) *faultConn { return &faultConn{Conn: c, closed: make(chan struct{})} }
@@ -187,8 +188,17 @@ func (f *faultConn) Write(b []byte) (int, error) {
 
 func (f *faultConn) Close() error {
 	f.closeOnce.Do(func() { close(f.closed) })
-	return f.Conn.Close()
+	err := f.Conn.Close()
+	if atomic.LoadInt32(&f.closeErr) != 0 {
+		// the inner conn is really closed; only the report is an error (what a TLS conn does when its
+		// close_notify alert cannot be written after the peer was lost)
+		atomic.StoreInt32(&f.tripped, 1)
+		return errInjected
+	}
+	return err
 }
+
+func (f *faultConn) armCloseErr() { atomic.StoreInt32(&f.closeErr, 1) }
 
 // tcpPair returns both ends of a loopback TCP connection.
 func tcpPair() (a, b net.Conn, err error) {
